@@ -14,7 +14,7 @@ import copy
 
 from hypothesis import strategies as st
 
-from vf import gen
+from vf import gen, provider
 from vf.props import common
 from vf.runner import Part, Violation
 
@@ -95,8 +95,10 @@ def run(scn, stats):
             r.step({"op": "rerun", "tasks": None})
             r.outcomes = {}
             r.finish()
-        except Exception as e:  # engine exceptions are owned by C15
-            stats.engine_exceptions[type(e).__name__] += 1
+        except provider.KnownTrigger as k:
+            stats.excluded[k.fid] += 1
+        except provider.EngineException as e:  # engine exceptions are owned by C15
+            stats.engine_exception(e, scn)
     stats.label("status:" + r.d.status())
     for e in w.events:
         stats.label(e)
